@@ -29,6 +29,19 @@ PANIC_MARKS = (
 )
 
 
+def require_hook():
+    """The engine trace hook must be in the tree under test (hooks/c10_engine_trace.patch)."""
+    try:
+        with open(os.path.join(vf.REPO, "server", "udp_engine.go")) as f:
+            ok = "verifTraceUDP(" in f.read()
+        ok = ok and os.path.exists(os.path.join(vf.REPO, "server", "verif_trace_on.go"))
+    except OSError:
+        ok = False
+    if not ok:
+        raise vf.MachineryError("the UDP engine trace hook is not in %s: apply /verif/hooks/c10_engine_trace.patch "
+                                "(git -C <repo> apply /verif/hooks/c10_engine_trace.patch)" % vf.REPO)
+
+
 def engine_configs(tier, seed):
     thorough = tier == "thorough"
     r = 14 if not thorough else 60
@@ -104,7 +117,7 @@ def model_runs(ctx):
     for cfg in ("MC_portable.cfg", "MC_batch.cfg", "MC_mixed.cfg"):
         ctx.tlc("UdpJob", "MC_UdpJob.tla", cfg, workers=4, timeout=900, heap="6g")
     if thorough:
-        for cfg in ("MC_batch_cap4.cfg", "MC_batch_noinline.cfg", "MC_mixed3.cfg", "MC_portable_w2.cfg", "MC_batch_panic.cfg", "MC_batch_all.cfg"):
+        for cfg in ("MC_portable_panic.cfg", "MC_batch_cap4.cfg", "MC_batch_noinline.cfg", "MC_mixed3.cfg", "MC_portable_w2.cfg", "MC_batch_all.cfg"):
             ctx.tlc("UdpJob", "MC_UdpJob.tla", cfg, workers=4, timeout=3000, heap="12g")
     # ---- regression configs: the invariants are not vacuous -------------------
     regress = [("MC_regress_noscrub.cfg", ("ReplyIsOwn", "SilentStaysSilent")),
@@ -154,6 +167,19 @@ def validate_udp_trace(ctx, trace, prefix=""):
         bad = json.loads(lines[k - 1]) if 0 < k <= len(lines) else {}
         slab = bad.get("j")
         hist = [ln for ln in lines[max(0, k - 400):k] if '"j":%s,' % slab in ln][-12:]
+        if r.violated == "AllHome":
+            # which slabs never came home: last event per slab of this run
+            lastev = {}
+            for ln in lines[:k]:
+                if '"ev":"reset"' in ln:
+                    lastev = {}
+                elif '"j":' in ln:
+                    e = json.loads(ln)
+                    lastev[e["j"]] = e
+            stuck = [e for e in lastev.values()
+                     if not (e["ev"] == "release" or (e["ev"] in ("trans", "take") and e.get("to") == "reading"))]
+            hist = [json.dumps(e) for e in stuck[:12]]
+            slab = [e["j"] for e in stuck]
         ctx.violation("trace/" + r.violated,
                       "%s[%s] %s is false on a recorded walk of the real UDP engine (trace line %d, slab %s, event %s): %s"
                       % (prefix, run, r.violated, k, slab, bad.get("ev"), WHAT[r.violated]),
@@ -220,9 +246,38 @@ def engines(ctx, prefix=""):
             raise vf.MachineryError("engine run %s skipped: %s" % (cfg["name"], res["skipped"][:3]))
         if not res.get("violations") and (c.get("udp_datagrams_received", 0) < 50 or c.get("tcp_answered", 0) < 10):
             raise vf.MachineryError("engine run %s is vacuous: %s" % (cfg["name"], info))
+    secure_legs(ctx, tcptrace, prefix)
     validate_udp_trace(ctx, trace, prefix)
     validate_tcp_trace(ctx, tcptrace, prefix)
     return runs
+
+
+def secure_legs(ctx, tcptrace, prefix=""):
+    """DoT / DoH / DoH3 / DoQ on loopback under a self-generated certificate; a leg that cannot be
+    brought up offline is recorded as skipped in the evidence (never faked)."""
+    thorough = ctx.tier == "thorough"
+    inp = {"name": "secure", "clients": 3 if not thorough else 8, "each": 24 if not thorough else 120,
+           "tcpTraceOut": tcptrace}
+    res = run_driver(ctx, "./c10", "TestSecureTransports", inp, "secure", timeout=900)
+    if res is None:
+        return
+    ctx.take_driver_result(res, prefix)
+    c = res.get("counters", {})
+    skipped = res.get("skipped", [])
+    legs = {}
+    for leg in ("dot", "doh", "doh3", "doq"):
+        n = c.get(leg + "_answered", 0)
+        legs[leg] = {"answered": n, "sent": c.get(leg + "_expected", 0) or c.get(leg + "_sent", 0),
+                     "silent_ok": c.get(leg + "_silent_ok", 0), "errors": c.get(leg + "_errors", 0),
+                     "status": "exercised" if n > 0 else "skipped"}
+    ctx.cov["replay"]["secure_transports"] = {"legs": legs, "skipped": skipped,
+                                              "drift_notes": res.get("drift_notes", [])}
+    ctx.log("secure transports: %s skipped=%s" % (
+        {k: "%d/%d" % (v["answered"], v["sent"]) for k, v in legs.items()}, skipped))
+    for leg, v in legs.items():
+        if v["status"] == "skipped":
+            ctx.assumptions.append("transport leg %s could not be exercised offline in this run: SKIPPED (%s)"
+                                   % (leg, "; ".join(s for s in skipped if s.startswith(leg) or s.startswith("all")) or "no answers"))
 
 
 def run(ctx, replay):
@@ -233,11 +288,13 @@ def run(ctx, replay):
                        "validated by Trace_TcpConn.tla")
     ctx.assumptions += [
         "the kernel's recvmmsg/sendmmsg ordering and loopback delivery are trusted",
-        "DoT/DoH/DoQ legs: not exercised by this check (skipped, not faked); they enter through the same tcpEngine "
-        "(DoT) or through ServeMsg with a per-request mock writer (DoH/DoQ)",
+        "DoT/DoH/DoH3/DoQ legs run on loopback under a self-generated certificate; a leg whose listener does not come "
+        "up offline is recorded as SKIPPED under coverage.replay.secure_transports (never faked); the DoQ leg does not "
+        "send the panic-ahead-of-recovery kind (the DoQ stream goroutine has no panic guard of its own)",
         "the mixed (recvmmsg fallback) shape is reached by starting the portable reader next to the batch reader "
         "through the overlay shim, as udpBatchReader.permanentRerr would after a permanent errno",
         "release() and serveInline's transition+count are single steps in UdpJob.tla",
     ]
+    require_hook()
     model_runs(ctx)
     engines(ctx)
